@@ -36,23 +36,17 @@ Definition enc_verdict (v : verdict) : list N :=
 (* ---------------------------------------------------------------------------------------------- *)
 (* limiter cases *)
 
-Inductive lev :=
-| LAllows (elapsed key tokens : N)
-| LPrune (elapsed : N).
-
 Definition dump_limiter (l : limiter) : list N :=
   tau l :: tt l :: enc_list (fun e => [fst e; snd e]) (sortK (tats l)).
 
 (* id, (period ns, max_tokens), expected result of from_quota (1 = Ok), steps *)
-Definition limcase := (N * (N * N) * N * list (lev * list N))%type.
+Definition limcase := (N * (N * N) * N * list (levent * list N))%type.
 
-Definition lim_step (l : limiter) (e : lev) : limiter * list N :=
-  match e with
-  | LAllows el k n => let (l', v) := allows l el k n in (l', enc_verdict v ++ dump_limiter l')
-  | LPrune el => let l' := prune l el in (l', dump_limiter l')
-  end.
+Definition lim_step (l : limiter) (e : levent) : limiter * list N :=
+  let (l', v) := lstep l e in
+  (l', match v with Some v => enc_verdict v | None => [] end ++ dump_limiter l').
 
-Fixpoint lim_steps (l : limiter) (steps : list (lev * list N)) (idx : N) : option (N * list N * list N) :=
+Fixpoint lim_steps (l : limiter) (steps : list (levent * list N)) (idx : N) : option (N * list N * list N) :=
   match steps with
   | [] => None
   | (e, expect) :: rest =>
@@ -78,18 +72,6 @@ Definition lim_case (c : limcase) : option mismatch :=
 (* ---------------------------------------------------------------------------------------------- *)
 (* filter cases *)
 
-Inductive fev :=
-| FInitial (ip : N)
-| FFinal (ip id : N)
-| FInbound (exempt : bool) (ip : N) (decoded : option (option N))
-| FPruneLimiter
-| FUnbanCheck
-(* the application-level calls of Discv5 on the global list; a ban carries Some duration / None *)
-| FPermitIp (ip : N) (add : bool)
-| FPermitNode (id : N) (add : bool)
-| FBanIp (ip : N) (add : bool) (dur : option N)
-| FBanNode (id : N) (add : bool) (dur : option N).
-
 Definition enc_bans (l : list (N * option N)) : list N :=
   enc_list (fun e => [fst e; match snd e with Some _ => 1 | None => 0 end]) (sortK l).
 
@@ -113,39 +95,19 @@ Definition dump_filter (f : pfilter) : list N :=
 Definition enc_fate (x : fate) : N :=
   match x with DropIpStage => 0 | Unrecognized => 1 | DropNodeStage => 2 | Deliver => 3 end.
 
-Definition add_or_remove (add : bool) (x : N) (l : list N) : list N :=
-  if add then (if mem x l then l else l ++ [x]) else filter (fun y => negb (y =? x)) l.
+Definition enc_fobs (o : fobs) : list N :=
+  match o with ONone => [] | OBool b => [bN b] | OFate x => [enc_fate x] end.
 
-Definition fil_step (f : pfilter) (p : pbl) (e : fev) (now : N) : pfilter * pbl * list N :=
-  match e with
-  | FInitial ip => let '(f', p', b) := initial_pass f p ip now in (f', p', [bN b])
-  | FFinal ip id => let '(f', p', b) := final_pass f p ip id now in (f', p', [bN b])
-  | FInbound ex ip d => let '(f', p', x) := handle_inbound f p ex ip d now in (f', p', [enc_fate x])
-  | FPruneLimiter => (prune_limiter f now, p, [])
-  | FUnbanCheck => (f, unban_check p now, [])
-  | FPermitIp ip add =>
-    (f, {| permit_ips := add_or_remove add ip (permit_ips p); ban_ips := ban_ips p;
-           permit_nodes := permit_nodes p; ban_nodes := ban_nodes p |}, [])
-  | FPermitNode id add =>
-    (f, {| permit_ips := permit_ips p; ban_ips := ban_ips p;
-           permit_nodes := add_or_remove add id (permit_nodes p); ban_nodes := ban_nodes p |}, [])
-  | FBanIp ip add dur =>
-    (f, if add then with_ban_ip p ip (option_map (fun d => now + d) dur)
-        else {| permit_ips := permit_ips p; ban_ips := unset ip (ban_ips p);
-                permit_nodes := permit_nodes p; ban_nodes := ban_nodes p |}, [])
-  | FBanNode id add dur =>
-    (f, if add then with_ban_node p id (option_map (fun d => now + d) dur)
-        else {| permit_ips := permit_ips p; ban_ips := ban_ips p;
-                permit_nodes := permit_nodes p; ban_nodes := unset id (ban_nodes p) |}, [])
-  end.
+Definition fil_step (f : pfilter) (p : pbl) (e : fevent) (now : N) : pfilter * pbl * list N :=
+  let '(f', p', o) := fstep f p e now in (f', p', enc_fobs o).
 
 Definition fil_obs (r : pfilter * pbl * list N) : list N :=
   let '(f, p, o) := r in o ++ dump_pbl p ++ dump_filter f.
 
 (* event, lo, hi, implementation's observation *)
-Definition fstep := (fev * N * N * list N)%type.
+Definition fcstep := (fevent * N * N * list N)%type.
 
-Fixpoint fil_steps (f : pfilter) (p : pbl) (steps : list fstep) (idx : N) : option (N * list N * list N) :=
+Fixpoint fil_steps (f : pfilter) (p : pbl) (steps : list fcstep) (idx : N) : option (N * list N * list N) :=
   match steps with
   | [] => None
   | (e, lo, hi, expect) :: rest =>
@@ -165,7 +127,7 @@ Definition mk_limiter (q : N * N) : option limiter := from_quota (fst q) (snd q)
    max_nodes_per_ip, max_bans_per_ip, steps *)
 Definition filcase :=
   (N * bool * option (N * (N * N) * option (N * N) * option (N * N)) * option N * option N * option N
-   * list fstep)%type.
+   * list fcstep)%type.
 
 Definition mk_rate (r : option (N * (N * N) * option (N * N) * option (N * N))) : option (option rate_limiter) :=
   match r with
